@@ -234,7 +234,7 @@ def key_coq(k) -> str:
 
 def get_layouts(specs: List[dict], compiled: Sequence[int] = (), imports: Sequence[str] = ()) -> Layouts:
     r = run_worker(dict(classes=specs, compiled=list(compiled), imports=list(imports), layout=True))
-    L = Layouts(r["specs"] if imports else specs, r["layout"])
+    L = Layouts(r["specs"] or specs, r["layout"])
     L.compile_error = r.get("compile_error")
     return L
 
